@@ -65,11 +65,19 @@ func funcArrayLen(ctx *Context, this *VMValue, params []*VMValue) *VMValue {
 	return NewIntVal(IntType(len(arr.List)))
 }
 
+// ctxRandIntn 从上下文的随机源取数(与骰点一致，保证同一种子可复现)；未设置种子时退回全局随机源
+func ctxRandIntn(ctx *Context, n int) int {
+	if ctx != nil && ctx.RandSrc != nil {
+		return rand.New(ctx.RandSrc).Intn(n)
+	}
+	return rand.Intn(n)
+}
+
 func funcArrayShuttle(ctx *Context, this *VMValue, params []*VMValue) *VMValue {
 	arr, _ := this.ReadArray()
 	lst := arr.List
 	for i := len(lst) - 1; i > 0; i-- { // Fisher–Yates shuffle
-		j := rand.Intn(i + 1)
+		j := ctxRandIntn(ctx, i+1)
 		lst[i], lst[j] = lst[j], lst[i]
 	}
 	return this
@@ -81,7 +89,7 @@ func funcArrayRand(ctx *Context, this *VMValue, params []*VMValue) *VMValue {
 		ctx.Error = errors.New("(arr.rand)值错误: 数组为空")
 		return nil
 	}
-	return arr.List[rand.Intn(len(arr.List))]
+	return arr.List[ctxRandIntn(ctx, len(arr.List))]
 }
 
 func funcArrayRandSize(ctx *Context, this *VMValue, params []*VMValue) *VMValue {
